@@ -229,7 +229,7 @@ func RunNative(harnesses map[string]func()) int {
 				case divergence:
 					result = "diverged " + r.msg
 				case assertFailure:
-					result = "assert-failed " + r.label
+					result = "assert-failed " + strings.ReplaceAll(r.label, "\n", " ")
 				case outsideStop:
 					result = "outside " + r.what
 				default:
